@@ -70,6 +70,9 @@ func (c *clusterT) newConfig(fixedPort int) *config.Config {
 		cfg.LoadFactor = float64(lf) / 100
 	}
 	cfg.ReplicationMode = config.SyncReplicationMode
+	if o["repl"] == "async" {
+		cfg.ReplicationMode = config.AsyncReplicationMode
+	}
 	cfg.LogOutput = io.Discard
 	cfg.Logger = log.New(io.Discard, "", 0)
 	cfg.LogVerbosity = 1
@@ -542,6 +545,41 @@ func init() {
 		return "ok"
 	})
 	// wb <dmap> <keyhex>: every member's primary and backup copy
+	// wb.wait <dmap> <keyhex>: with asynchronous replication the backup writes arrive a moment after Put returned: wait (at most
+	// three seconds) until every backup copy has the primary copy's timestamp, then list the copies as `wb` does
+	register("wb.wait", func(a []string) string {
+		key := string(unhx(a[1]))
+		deadline := time.Now().Add(3 * time.Second)
+		for time.Now().Before(deadline) {
+			var pts int64 = -1
+			same := true
+			for _, m := range cl.members {
+				if !m.alive {
+					continue
+				}
+				if ok, _, _, ts, _ := m.db.VerifInternals().DMap.VerifCopy(a[0], key, partitions.PRIMARY); ok {
+					pts = ts
+				}
+			}
+			n := 0
+			for _, m := range cl.members {
+				if !m.alive {
+					continue
+				}
+				if ok, _, _, ts, _ := m.db.VerifInternals().DMap.VerifCopy(a[0], key, partitions.BACKUP); ok {
+					n++
+					if ts != pts {
+						same = false
+					}
+				}
+			}
+			if same && n >= optInt(cl.opts, "r", 1)-1 {
+				break
+			}
+			time.Sleep(10 * time.Millisecond)
+		}
+		return handlers["wb"](a)
+	})
 	register("wb", func(a []string) string {
 		key := string(unhx(a[1]))
 		var out []string
@@ -604,6 +642,7 @@ func init() {
 		}
 		return strings.Join(out, " ")
 	})
+	register("wb.baks", func(a []string) string { return handlers["wb.keys"](a) }) // same listing; the oracle looks at the backup copies only
 	register("wb.frags", func(a []string) string {
 		var out []string
 		for i, m := range cl.members {
